@@ -15,6 +15,7 @@ import numpy as np
 from ..poly import z3mod
 from ..tv import project_block
 from ..dromodels import CompiledDRO, dro_hold
+from ..drogen import MAY_RAISE
 from ..drogen import members, lookup
 from ..smt import HarnessError, fval
 from ..harness import finding
@@ -59,7 +60,7 @@ def run_case(case, ses):
     except HarnessError:
         raise
     except Exception as e:
-        if name.startswith('rand'):
+        if name.startswith('rand') or name in MAY_RAISE:
             ses.stats.kinds['member-rejected-by-rsome'] = ses.stats.kinds.get('member-rejected-by-rsome', 0) + 1
             return
         raise
